@@ -113,48 +113,50 @@ Record cst := mkC {
   out_pending : bool;   (* a frame was handed to the output writer and its Write call has not been seen yet *)
   matrix : list Z;   (* GHOST: the bars the width-sync matrices were last built from (heap at the last rebuild) *)
   final_done : bool;   (* a render cycle has ended (frame or error) since the container goroutine saw done *)
-  released : list (Z * Z)   (* Bar.relieved / Bar.lastPriority: bars whose first terminal frame was flushed, with their priority then *)
+  released : list (Z * Z);   (* Bar.relieved / Bar.lastPriority: bars whose first terminal frame was flushed, with their priority then *)
+  last_lazy : option Z   (* GHOST: Some b when the heap manager's last heap request was the lazy fix of b that broke an ordered heap *)
 }.
 
-Definition cs_bars (s : cst) v : cst := mkC v (heap s) (hsync s) (hlen s) (hdirty s) (iterating s) (popped s) (fifo s) (queue s) (pop_prio s) (id_count s) (pop_mode s) (auto_mode s) (ph s) (cwbuf s) (delayed s) (pend_writes s) (pend_fix s) (outframes s) (cancelled s) (done_seen s) (ended s) (errored s) (ct_exited s) (cycle_pops s) (cycle_flushed s) (iter_heap s) (iter_dirty s) (retired s) (wlog s) (cycle_err s) (out_pending s) (matrix s) (final_done s) (released s).
-Definition cs_heap (s : cst) v : cst := mkC (bars s) v (hsync s) (hlen s) (hdirty s) (iterating s) (popped s) (fifo s) (queue s) (pop_prio s) (id_count s) (pop_mode s) (auto_mode s) (ph s) (cwbuf s) (delayed s) (pend_writes s) (pend_fix s) (outframes s) (cancelled s) (done_seen s) (ended s) (errored s) (ct_exited s) (cycle_pops s) (cycle_flushed s) (iter_heap s) (iter_dirty s) (retired s) (wlog s) (cycle_err s) (out_pending s) (matrix s) (final_done s) (released s).
-Definition cs_hsync (s : cst) v : cst := mkC (bars s) (heap s) v (hlen s) (hdirty s) (iterating s) (popped s) (fifo s) (queue s) (pop_prio s) (id_count s) (pop_mode s) (auto_mode s) (ph s) (cwbuf s) (delayed s) (pend_writes s) (pend_fix s) (outframes s) (cancelled s) (done_seen s) (ended s) (errored s) (ct_exited s) (cycle_pops s) (cycle_flushed s) (iter_heap s) (iter_dirty s) (retired s) (wlog s) (cycle_err s) (out_pending s) (matrix s) (final_done s) (released s).
-Definition cs_hlen (s : cst) v : cst := mkC (bars s) (heap s) (hsync s) v (hdirty s) (iterating s) (popped s) (fifo s) (queue s) (pop_prio s) (id_count s) (pop_mode s) (auto_mode s) (ph s) (cwbuf s) (delayed s) (pend_writes s) (pend_fix s) (outframes s) (cancelled s) (done_seen s) (ended s) (errored s) (ct_exited s) (cycle_pops s) (cycle_flushed s) (iter_heap s) (iter_dirty s) (retired s) (wlog s) (cycle_err s) (out_pending s) (matrix s) (final_done s) (released s).
-Definition cs_hdirty (s : cst) v : cst := mkC (bars s) (heap s) (hsync s) (hlen s) v (iterating s) (popped s) (fifo s) (queue s) (pop_prio s) (id_count s) (pop_mode s) (auto_mode s) (ph s) (cwbuf s) (delayed s) (pend_writes s) (pend_fix s) (outframes s) (cancelled s) (done_seen s) (ended s) (errored s) (ct_exited s) (cycle_pops s) (cycle_flushed s) (iter_heap s) (iter_dirty s) (retired s) (wlog s) (cycle_err s) (out_pending s) (matrix s) (final_done s) (released s).
-Definition cs_iterating (s : cst) v : cst := mkC (bars s) (heap s) (hsync s) (hlen s) (hdirty s) v (popped s) (fifo s) (queue s) (pop_prio s) (id_count s) (pop_mode s) (auto_mode s) (ph s) (cwbuf s) (delayed s) (pend_writes s) (pend_fix s) (outframes s) (cancelled s) (done_seen s) (ended s) (errored s) (ct_exited s) (cycle_pops s) (cycle_flushed s) (iter_heap s) (iter_dirty s) (retired s) (wlog s) (cycle_err s) (out_pending s) (matrix s) (final_done s) (released s).
-Definition cs_popped (s : cst) v : cst := mkC (bars s) (heap s) (hsync s) (hlen s) (hdirty s) (iterating s) v (fifo s) (queue s) (pop_prio s) (id_count s) (pop_mode s) (auto_mode s) (ph s) (cwbuf s) (delayed s) (pend_writes s) (pend_fix s) (outframes s) (cancelled s) (done_seen s) (ended s) (errored s) (ct_exited s) (cycle_pops s) (cycle_flushed s) (iter_heap s) (iter_dirty s) (retired s) (wlog s) (cycle_err s) (out_pending s) (matrix s) (final_done s) (released s).
-Definition cs_fifo (s : cst) v : cst := mkC (bars s) (heap s) (hsync s) (hlen s) (hdirty s) (iterating s) (popped s) v (queue s) (pop_prio s) (id_count s) (pop_mode s) (auto_mode s) (ph s) (cwbuf s) (delayed s) (pend_writes s) (pend_fix s) (outframes s) (cancelled s) (done_seen s) (ended s) (errored s) (ct_exited s) (cycle_pops s) (cycle_flushed s) (iter_heap s) (iter_dirty s) (retired s) (wlog s) (cycle_err s) (out_pending s) (matrix s) (final_done s) (released s).
-Definition cs_queue (s : cst) v : cst := mkC (bars s) (heap s) (hsync s) (hlen s) (hdirty s) (iterating s) (popped s) (fifo s) v (pop_prio s) (id_count s) (pop_mode s) (auto_mode s) (ph s) (cwbuf s) (delayed s) (pend_writes s) (pend_fix s) (outframes s) (cancelled s) (done_seen s) (ended s) (errored s) (ct_exited s) (cycle_pops s) (cycle_flushed s) (iter_heap s) (iter_dirty s) (retired s) (wlog s) (cycle_err s) (out_pending s) (matrix s) (final_done s) (released s).
-Definition cs_pop_prio (s : cst) v : cst := mkC (bars s) (heap s) (hsync s) (hlen s) (hdirty s) (iterating s) (popped s) (fifo s) (queue s) v (id_count s) (pop_mode s) (auto_mode s) (ph s) (cwbuf s) (delayed s) (pend_writes s) (pend_fix s) (outframes s) (cancelled s) (done_seen s) (ended s) (errored s) (ct_exited s) (cycle_pops s) (cycle_flushed s) (iter_heap s) (iter_dirty s) (retired s) (wlog s) (cycle_err s) (out_pending s) (matrix s) (final_done s) (released s).
-Definition cs_id_count (s : cst) v : cst := mkC (bars s) (heap s) (hsync s) (hlen s) (hdirty s) (iterating s) (popped s) (fifo s) (queue s) (pop_prio s) v (pop_mode s) (auto_mode s) (ph s) (cwbuf s) (delayed s) (pend_writes s) (pend_fix s) (outframes s) (cancelled s) (done_seen s) (ended s) (errored s) (ct_exited s) (cycle_pops s) (cycle_flushed s) (iter_heap s) (iter_dirty s) (retired s) (wlog s) (cycle_err s) (out_pending s) (matrix s) (final_done s) (released s).
-Definition cs_pop_mode (s : cst) v : cst := mkC (bars s) (heap s) (hsync s) (hlen s) (hdirty s) (iterating s) (popped s) (fifo s) (queue s) (pop_prio s) (id_count s) v (auto_mode s) (ph s) (cwbuf s) (delayed s) (pend_writes s) (pend_fix s) (outframes s) (cancelled s) (done_seen s) (ended s) (errored s) (ct_exited s) (cycle_pops s) (cycle_flushed s) (iter_heap s) (iter_dirty s) (retired s) (wlog s) (cycle_err s) (out_pending s) (matrix s) (final_done s) (released s).
-Definition cs_auto_mode (s : cst) v : cst := mkC (bars s) (heap s) (hsync s) (hlen s) (hdirty s) (iterating s) (popped s) (fifo s) (queue s) (pop_prio s) (id_count s) (pop_mode s) v (ph s) (cwbuf s) (delayed s) (pend_writes s) (pend_fix s) (outframes s) (cancelled s) (done_seen s) (ended s) (errored s) (ct_exited s) (cycle_pops s) (cycle_flushed s) (iter_heap s) (iter_dirty s) (retired s) (wlog s) (cycle_err s) (out_pending s) (matrix s) (final_done s) (released s).
-Definition cs_ph (s : cst) v : cst := mkC (bars s) (heap s) (hsync s) (hlen s) (hdirty s) (iterating s) (popped s) (fifo s) (queue s) (pop_prio s) (id_count s) (pop_mode s) (auto_mode s) v (cwbuf s) (delayed s) (pend_writes s) (pend_fix s) (outframes s) (cancelled s) (done_seen s) (ended s) (errored s) (ct_exited s) (cycle_pops s) (cycle_flushed s) (iter_heap s) (iter_dirty s) (retired s) (wlog s) (cycle_err s) (out_pending s) (matrix s) (final_done s) (released s).
-Definition cs_cwbuf (s : cst) v : cst := mkC (bars s) (heap s) (hsync s) (hlen s) (hdirty s) (iterating s) (popped s) (fifo s) (queue s) (pop_prio s) (id_count s) (pop_mode s) (auto_mode s) (ph s) v (delayed s) (pend_writes s) (pend_fix s) (outframes s) (cancelled s) (done_seen s) (ended s) (errored s) (ct_exited s) (cycle_pops s) (cycle_flushed s) (iter_heap s) (iter_dirty s) (retired s) (wlog s) (cycle_err s) (out_pending s) (matrix s) (final_done s) (released s).
-Definition cs_delayed (s : cst) v : cst := mkC (bars s) (heap s) (hsync s) (hlen s) (hdirty s) (iterating s) (popped s) (fifo s) (queue s) (pop_prio s) (id_count s) (pop_mode s) (auto_mode s) (ph s) (cwbuf s) v (pend_writes s) (pend_fix s) (outframes s) (cancelled s) (done_seen s) (ended s) (errored s) (ct_exited s) (cycle_pops s) (cycle_flushed s) (iter_heap s) (iter_dirty s) (retired s) (wlog s) (cycle_err s) (out_pending s) (matrix s) (final_done s) (released s).
-Definition cs_pend_writes (s : cst) v : cst := mkC (bars s) (heap s) (hsync s) (hlen s) (hdirty s) (iterating s) (popped s) (fifo s) (queue s) (pop_prio s) (id_count s) (pop_mode s) (auto_mode s) (ph s) (cwbuf s) (delayed s) v (pend_fix s) (outframes s) (cancelled s) (done_seen s) (ended s) (errored s) (ct_exited s) (cycle_pops s) (cycle_flushed s) (iter_heap s) (iter_dirty s) (retired s) (wlog s) (cycle_err s) (out_pending s) (matrix s) (final_done s) (released s).
-Definition cs_pend_fix (s : cst) v : cst := mkC (bars s) (heap s) (hsync s) (hlen s) (hdirty s) (iterating s) (popped s) (fifo s) (queue s) (pop_prio s) (id_count s) (pop_mode s) (auto_mode s) (ph s) (cwbuf s) (delayed s) (pend_writes s) v (outframes s) (cancelled s) (done_seen s) (ended s) (errored s) (ct_exited s) (cycle_pops s) (cycle_flushed s) (iter_heap s) (iter_dirty s) (retired s) (wlog s) (cycle_err s) (out_pending s) (matrix s) (final_done s) (released s).
-Definition cs_outframes (s : cst) v : cst := mkC (bars s) (heap s) (hsync s) (hlen s) (hdirty s) (iterating s) (popped s) (fifo s) (queue s) (pop_prio s) (id_count s) (pop_mode s) (auto_mode s) (ph s) (cwbuf s) (delayed s) (pend_writes s) (pend_fix s) v (cancelled s) (done_seen s) (ended s) (errored s) (ct_exited s) (cycle_pops s) (cycle_flushed s) (iter_heap s) (iter_dirty s) (retired s) (wlog s) (cycle_err s) (out_pending s) (matrix s) (final_done s) (released s).
-Definition cs_cancelled (s : cst) v : cst := mkC (bars s) (heap s) (hsync s) (hlen s) (hdirty s) (iterating s) (popped s) (fifo s) (queue s) (pop_prio s) (id_count s) (pop_mode s) (auto_mode s) (ph s) (cwbuf s) (delayed s) (pend_writes s) (pend_fix s) (outframes s) v (done_seen s) (ended s) (errored s) (ct_exited s) (cycle_pops s) (cycle_flushed s) (iter_heap s) (iter_dirty s) (retired s) (wlog s) (cycle_err s) (out_pending s) (matrix s) (final_done s) (released s).
-Definition cs_done_seen (s : cst) v : cst := mkC (bars s) (heap s) (hsync s) (hlen s) (hdirty s) (iterating s) (popped s) (fifo s) (queue s) (pop_prio s) (id_count s) (pop_mode s) (auto_mode s) (ph s) (cwbuf s) (delayed s) (pend_writes s) (pend_fix s) (outframes s) (cancelled s) v (ended s) (errored s) (ct_exited s) (cycle_pops s) (cycle_flushed s) (iter_heap s) (iter_dirty s) (retired s) (wlog s) (cycle_err s) (out_pending s) (matrix s) (final_done s) (released s).
-Definition cs_ended (s : cst) v : cst := mkC (bars s) (heap s) (hsync s) (hlen s) (hdirty s) (iterating s) (popped s) (fifo s) (queue s) (pop_prio s) (id_count s) (pop_mode s) (auto_mode s) (ph s) (cwbuf s) (delayed s) (pend_writes s) (pend_fix s) (outframes s) (cancelled s) (done_seen s) v (errored s) (ct_exited s) (cycle_pops s) (cycle_flushed s) (iter_heap s) (iter_dirty s) (retired s) (wlog s) (cycle_err s) (out_pending s) (matrix s) (final_done s) (released s).
-Definition cs_errored (s : cst) v : cst := mkC (bars s) (heap s) (hsync s) (hlen s) (hdirty s) (iterating s) (popped s) (fifo s) (queue s) (pop_prio s) (id_count s) (pop_mode s) (auto_mode s) (ph s) (cwbuf s) (delayed s) (pend_writes s) (pend_fix s) (outframes s) (cancelled s) (done_seen s) (ended s) v (ct_exited s) (cycle_pops s) (cycle_flushed s) (iter_heap s) (iter_dirty s) (retired s) (wlog s) (cycle_err s) (out_pending s) (matrix s) (final_done s) (released s).
-Definition cs_ct_exited (s : cst) v : cst := mkC (bars s) (heap s) (hsync s) (hlen s) (hdirty s) (iterating s) (popped s) (fifo s) (queue s) (pop_prio s) (id_count s) (pop_mode s) (auto_mode s) (ph s) (cwbuf s) (delayed s) (pend_writes s) (pend_fix s) (outframes s) (cancelled s) (done_seen s) (ended s) (errored s) v (cycle_pops s) (cycle_flushed s) (iter_heap s) (iter_dirty s) (retired s) (wlog s) (cycle_err s) (out_pending s) (matrix s) (final_done s) (released s).
-Definition cs_cycle_pops (s : cst) v : cst := mkC (bars s) (heap s) (hsync s) (hlen s) (hdirty s) (iterating s) (popped s) (fifo s) (queue s) (pop_prio s) (id_count s) (pop_mode s) (auto_mode s) (ph s) (cwbuf s) (delayed s) (pend_writes s) (pend_fix s) (outframes s) (cancelled s) (done_seen s) (ended s) (errored s) (ct_exited s) v (cycle_flushed s) (iter_heap s) (iter_dirty s) (retired s) (wlog s) (cycle_err s) (out_pending s) (matrix s) (final_done s) (released s).
-Definition cs_cycle_flushed (s : cst) v : cst := mkC (bars s) (heap s) (hsync s) (hlen s) (hdirty s) (iterating s) (popped s) (fifo s) (queue s) (pop_prio s) (id_count s) (pop_mode s) (auto_mode s) (ph s) (cwbuf s) (delayed s) (pend_writes s) (pend_fix s) (outframes s) (cancelled s) (done_seen s) (ended s) (errored s) (ct_exited s) (cycle_pops s) v (iter_heap s) (iter_dirty s) (retired s) (wlog s) (cycle_err s) (out_pending s) (matrix s) (final_done s) (released s).
-Definition cs_iter_heap (s : cst) v : cst := mkC (bars s) (heap s) (hsync s) (hlen s) (hdirty s) (iterating s) (popped s) (fifo s) (queue s) (pop_prio s) (id_count s) (pop_mode s) (auto_mode s) (ph s) (cwbuf s) (delayed s) (pend_writes s) (pend_fix s) (outframes s) (cancelled s) (done_seen s) (ended s) (errored s) (ct_exited s) (cycle_pops s) (cycle_flushed s) v (iter_dirty s) (retired s) (wlog s) (cycle_err s) (out_pending s) (matrix s) (final_done s) (released s).
-Definition cs_iter_dirty (s : cst) v : cst := mkC (bars s) (heap s) (hsync s) (hlen s) (hdirty s) (iterating s) (popped s) (fifo s) (queue s) (pop_prio s) (id_count s) (pop_mode s) (auto_mode s) (ph s) (cwbuf s) (delayed s) (pend_writes s) (pend_fix s) (outframes s) (cancelled s) (done_seen s) (ended s) (errored s) (ct_exited s) (cycle_pops s) (cycle_flushed s) (iter_heap s) v (retired s) (wlog s) (cycle_err s) (out_pending s) (matrix s) (final_done s) (released s).
-Definition cs_retired (s : cst) v : cst := mkC (bars s) (heap s) (hsync s) (hlen s) (hdirty s) (iterating s) (popped s) (fifo s) (queue s) (pop_prio s) (id_count s) (pop_mode s) (auto_mode s) (ph s) (cwbuf s) (delayed s) (pend_writes s) (pend_fix s) (outframes s) (cancelled s) (done_seen s) (ended s) (errored s) (ct_exited s) (cycle_pops s) (cycle_flushed s) (iter_heap s) (iter_dirty s) v (wlog s) (cycle_err s) (out_pending s) (matrix s) (final_done s) (released s).
-Definition cs_wlog (s : cst) v : cst := mkC (bars s) (heap s) (hsync s) (hlen s) (hdirty s) (iterating s) (popped s) (fifo s) (queue s) (pop_prio s) (id_count s) (pop_mode s) (auto_mode s) (ph s) (cwbuf s) (delayed s) (pend_writes s) (pend_fix s) (outframes s) (cancelled s) (done_seen s) (ended s) (errored s) (ct_exited s) (cycle_pops s) (cycle_flushed s) (iter_heap s) (iter_dirty s) (retired s) v (cycle_err s) (out_pending s) (matrix s) (final_done s) (released s).
-Definition cs_cycle_err (s : cst) v : cst := mkC (bars s) (heap s) (hsync s) (hlen s) (hdirty s) (iterating s) (popped s) (fifo s) (queue s) (pop_prio s) (id_count s) (pop_mode s) (auto_mode s) (ph s) (cwbuf s) (delayed s) (pend_writes s) (pend_fix s) (outframes s) (cancelled s) (done_seen s) (ended s) (errored s) (ct_exited s) (cycle_pops s) (cycle_flushed s) (iter_heap s) (iter_dirty s) (retired s) (wlog s) v (out_pending s) (matrix s) (final_done s) (released s).
-Definition cs_out_pending (s : cst) v : cst := mkC (bars s) (heap s) (hsync s) (hlen s) (hdirty s) (iterating s) (popped s) (fifo s) (queue s) (pop_prio s) (id_count s) (pop_mode s) (auto_mode s) (ph s) (cwbuf s) (delayed s) (pend_writes s) (pend_fix s) (outframes s) (cancelled s) (done_seen s) (ended s) (errored s) (ct_exited s) (cycle_pops s) (cycle_flushed s) (iter_heap s) (iter_dirty s) (retired s) (wlog s) (cycle_err s) v (matrix s) (final_done s) (released s).
-Definition cs_matrix (s : cst) v : cst := mkC (bars s) (heap s) (hsync s) (hlen s) (hdirty s) (iterating s) (popped s) (fifo s) (queue s) (pop_prio s) (id_count s) (pop_mode s) (auto_mode s) (ph s) (cwbuf s) (delayed s) (pend_writes s) (pend_fix s) (outframes s) (cancelled s) (done_seen s) (ended s) (errored s) (ct_exited s) (cycle_pops s) (cycle_flushed s) (iter_heap s) (iter_dirty s) (retired s) (wlog s) (cycle_err s) (out_pending s) v (final_done s) (released s).
-Definition cs_final_done (s : cst) v : cst := mkC (bars s) (heap s) (hsync s) (hlen s) (hdirty s) (iterating s) (popped s) (fifo s) (queue s) (pop_prio s) (id_count s) (pop_mode s) (auto_mode s) (ph s) (cwbuf s) (delayed s) (pend_writes s) (pend_fix s) (outframes s) (cancelled s) (done_seen s) (ended s) (errored s) (ct_exited s) (cycle_pops s) (cycle_flushed s) (iter_heap s) (iter_dirty s) (retired s) (wlog s) (cycle_err s) (out_pending s) (matrix s) v (released s).
-Definition cs_released (s : cst) v : cst := mkC (bars s) (heap s) (hsync s) (hlen s) (hdirty s) (iterating s) (popped s) (fifo s) (queue s) (pop_prio s) (id_count s) (pop_mode s) (auto_mode s) (ph s) (cwbuf s) (delayed s) (pend_writes s) (pend_fix s) (outframes s) (cancelled s) (done_seen s) (ended s) (errored s) (ct_exited s) (cycle_pops s) (cycle_flushed s) (iter_heap s) (iter_dirty s) (retired s) (wlog s) (cycle_err s) (out_pending s) (matrix s) (final_done s) v.
+Definition cs_bars (s : cst) v : cst := mkC v (heap s) (hsync s) (hlen s) (hdirty s) (iterating s) (popped s) (fifo s) (queue s) (pop_prio s) (id_count s) (pop_mode s) (auto_mode s) (ph s) (cwbuf s) (delayed s) (pend_writes s) (pend_fix s) (outframes s) (cancelled s) (done_seen s) (ended s) (errored s) (ct_exited s) (cycle_pops s) (cycle_flushed s) (iter_heap s) (iter_dirty s) (retired s) (wlog s) (cycle_err s) (out_pending s) (matrix s) (final_done s) (released s) (last_lazy s).
+Definition cs_heap (s : cst) v : cst := mkC (bars s) v (hsync s) (hlen s) (hdirty s) (iterating s) (popped s) (fifo s) (queue s) (pop_prio s) (id_count s) (pop_mode s) (auto_mode s) (ph s) (cwbuf s) (delayed s) (pend_writes s) (pend_fix s) (outframes s) (cancelled s) (done_seen s) (ended s) (errored s) (ct_exited s) (cycle_pops s) (cycle_flushed s) (iter_heap s) (iter_dirty s) (retired s) (wlog s) (cycle_err s) (out_pending s) (matrix s) (final_done s) (released s) (last_lazy s).
+Definition cs_hsync (s : cst) v : cst := mkC (bars s) (heap s) v (hlen s) (hdirty s) (iterating s) (popped s) (fifo s) (queue s) (pop_prio s) (id_count s) (pop_mode s) (auto_mode s) (ph s) (cwbuf s) (delayed s) (pend_writes s) (pend_fix s) (outframes s) (cancelled s) (done_seen s) (ended s) (errored s) (ct_exited s) (cycle_pops s) (cycle_flushed s) (iter_heap s) (iter_dirty s) (retired s) (wlog s) (cycle_err s) (out_pending s) (matrix s) (final_done s) (released s) (last_lazy s).
+Definition cs_hlen (s : cst) v : cst := mkC (bars s) (heap s) (hsync s) v (hdirty s) (iterating s) (popped s) (fifo s) (queue s) (pop_prio s) (id_count s) (pop_mode s) (auto_mode s) (ph s) (cwbuf s) (delayed s) (pend_writes s) (pend_fix s) (outframes s) (cancelled s) (done_seen s) (ended s) (errored s) (ct_exited s) (cycle_pops s) (cycle_flushed s) (iter_heap s) (iter_dirty s) (retired s) (wlog s) (cycle_err s) (out_pending s) (matrix s) (final_done s) (released s) (last_lazy s).
+Definition cs_hdirty (s : cst) v : cst := mkC (bars s) (heap s) (hsync s) (hlen s) v (iterating s) (popped s) (fifo s) (queue s) (pop_prio s) (id_count s) (pop_mode s) (auto_mode s) (ph s) (cwbuf s) (delayed s) (pend_writes s) (pend_fix s) (outframes s) (cancelled s) (done_seen s) (ended s) (errored s) (ct_exited s) (cycle_pops s) (cycle_flushed s) (iter_heap s) (iter_dirty s) (retired s) (wlog s) (cycle_err s) (out_pending s) (matrix s) (final_done s) (released s) (last_lazy s).
+Definition cs_iterating (s : cst) v : cst := mkC (bars s) (heap s) (hsync s) (hlen s) (hdirty s) v (popped s) (fifo s) (queue s) (pop_prio s) (id_count s) (pop_mode s) (auto_mode s) (ph s) (cwbuf s) (delayed s) (pend_writes s) (pend_fix s) (outframes s) (cancelled s) (done_seen s) (ended s) (errored s) (ct_exited s) (cycle_pops s) (cycle_flushed s) (iter_heap s) (iter_dirty s) (retired s) (wlog s) (cycle_err s) (out_pending s) (matrix s) (final_done s) (released s) (last_lazy s).
+Definition cs_popped (s : cst) v : cst := mkC (bars s) (heap s) (hsync s) (hlen s) (hdirty s) (iterating s) v (fifo s) (queue s) (pop_prio s) (id_count s) (pop_mode s) (auto_mode s) (ph s) (cwbuf s) (delayed s) (pend_writes s) (pend_fix s) (outframes s) (cancelled s) (done_seen s) (ended s) (errored s) (ct_exited s) (cycle_pops s) (cycle_flushed s) (iter_heap s) (iter_dirty s) (retired s) (wlog s) (cycle_err s) (out_pending s) (matrix s) (final_done s) (released s) (last_lazy s).
+Definition cs_fifo (s : cst) v : cst := mkC (bars s) (heap s) (hsync s) (hlen s) (hdirty s) (iterating s) (popped s) v (queue s) (pop_prio s) (id_count s) (pop_mode s) (auto_mode s) (ph s) (cwbuf s) (delayed s) (pend_writes s) (pend_fix s) (outframes s) (cancelled s) (done_seen s) (ended s) (errored s) (ct_exited s) (cycle_pops s) (cycle_flushed s) (iter_heap s) (iter_dirty s) (retired s) (wlog s) (cycle_err s) (out_pending s) (matrix s) (final_done s) (released s) (last_lazy s).
+Definition cs_queue (s : cst) v : cst := mkC (bars s) (heap s) (hsync s) (hlen s) (hdirty s) (iterating s) (popped s) (fifo s) v (pop_prio s) (id_count s) (pop_mode s) (auto_mode s) (ph s) (cwbuf s) (delayed s) (pend_writes s) (pend_fix s) (outframes s) (cancelled s) (done_seen s) (ended s) (errored s) (ct_exited s) (cycle_pops s) (cycle_flushed s) (iter_heap s) (iter_dirty s) (retired s) (wlog s) (cycle_err s) (out_pending s) (matrix s) (final_done s) (released s) (last_lazy s).
+Definition cs_pop_prio (s : cst) v : cst := mkC (bars s) (heap s) (hsync s) (hlen s) (hdirty s) (iterating s) (popped s) (fifo s) (queue s) v (id_count s) (pop_mode s) (auto_mode s) (ph s) (cwbuf s) (delayed s) (pend_writes s) (pend_fix s) (outframes s) (cancelled s) (done_seen s) (ended s) (errored s) (ct_exited s) (cycle_pops s) (cycle_flushed s) (iter_heap s) (iter_dirty s) (retired s) (wlog s) (cycle_err s) (out_pending s) (matrix s) (final_done s) (released s) (last_lazy s).
+Definition cs_id_count (s : cst) v : cst := mkC (bars s) (heap s) (hsync s) (hlen s) (hdirty s) (iterating s) (popped s) (fifo s) (queue s) (pop_prio s) v (pop_mode s) (auto_mode s) (ph s) (cwbuf s) (delayed s) (pend_writes s) (pend_fix s) (outframes s) (cancelled s) (done_seen s) (ended s) (errored s) (ct_exited s) (cycle_pops s) (cycle_flushed s) (iter_heap s) (iter_dirty s) (retired s) (wlog s) (cycle_err s) (out_pending s) (matrix s) (final_done s) (released s) (last_lazy s).
+Definition cs_pop_mode (s : cst) v : cst := mkC (bars s) (heap s) (hsync s) (hlen s) (hdirty s) (iterating s) (popped s) (fifo s) (queue s) (pop_prio s) (id_count s) v (auto_mode s) (ph s) (cwbuf s) (delayed s) (pend_writes s) (pend_fix s) (outframes s) (cancelled s) (done_seen s) (ended s) (errored s) (ct_exited s) (cycle_pops s) (cycle_flushed s) (iter_heap s) (iter_dirty s) (retired s) (wlog s) (cycle_err s) (out_pending s) (matrix s) (final_done s) (released s) (last_lazy s).
+Definition cs_auto_mode (s : cst) v : cst := mkC (bars s) (heap s) (hsync s) (hlen s) (hdirty s) (iterating s) (popped s) (fifo s) (queue s) (pop_prio s) (id_count s) (pop_mode s) v (ph s) (cwbuf s) (delayed s) (pend_writes s) (pend_fix s) (outframes s) (cancelled s) (done_seen s) (ended s) (errored s) (ct_exited s) (cycle_pops s) (cycle_flushed s) (iter_heap s) (iter_dirty s) (retired s) (wlog s) (cycle_err s) (out_pending s) (matrix s) (final_done s) (released s) (last_lazy s).
+Definition cs_ph (s : cst) v : cst := mkC (bars s) (heap s) (hsync s) (hlen s) (hdirty s) (iterating s) (popped s) (fifo s) (queue s) (pop_prio s) (id_count s) (pop_mode s) (auto_mode s) v (cwbuf s) (delayed s) (pend_writes s) (pend_fix s) (outframes s) (cancelled s) (done_seen s) (ended s) (errored s) (ct_exited s) (cycle_pops s) (cycle_flushed s) (iter_heap s) (iter_dirty s) (retired s) (wlog s) (cycle_err s) (out_pending s) (matrix s) (final_done s) (released s) (last_lazy s).
+Definition cs_cwbuf (s : cst) v : cst := mkC (bars s) (heap s) (hsync s) (hlen s) (hdirty s) (iterating s) (popped s) (fifo s) (queue s) (pop_prio s) (id_count s) (pop_mode s) (auto_mode s) (ph s) v (delayed s) (pend_writes s) (pend_fix s) (outframes s) (cancelled s) (done_seen s) (ended s) (errored s) (ct_exited s) (cycle_pops s) (cycle_flushed s) (iter_heap s) (iter_dirty s) (retired s) (wlog s) (cycle_err s) (out_pending s) (matrix s) (final_done s) (released s) (last_lazy s).
+Definition cs_delayed (s : cst) v : cst := mkC (bars s) (heap s) (hsync s) (hlen s) (hdirty s) (iterating s) (popped s) (fifo s) (queue s) (pop_prio s) (id_count s) (pop_mode s) (auto_mode s) (ph s) (cwbuf s) v (pend_writes s) (pend_fix s) (outframes s) (cancelled s) (done_seen s) (ended s) (errored s) (ct_exited s) (cycle_pops s) (cycle_flushed s) (iter_heap s) (iter_dirty s) (retired s) (wlog s) (cycle_err s) (out_pending s) (matrix s) (final_done s) (released s) (last_lazy s).
+Definition cs_pend_writes (s : cst) v : cst := mkC (bars s) (heap s) (hsync s) (hlen s) (hdirty s) (iterating s) (popped s) (fifo s) (queue s) (pop_prio s) (id_count s) (pop_mode s) (auto_mode s) (ph s) (cwbuf s) (delayed s) v (pend_fix s) (outframes s) (cancelled s) (done_seen s) (ended s) (errored s) (ct_exited s) (cycle_pops s) (cycle_flushed s) (iter_heap s) (iter_dirty s) (retired s) (wlog s) (cycle_err s) (out_pending s) (matrix s) (final_done s) (released s) (last_lazy s).
+Definition cs_pend_fix (s : cst) v : cst := mkC (bars s) (heap s) (hsync s) (hlen s) (hdirty s) (iterating s) (popped s) (fifo s) (queue s) (pop_prio s) (id_count s) (pop_mode s) (auto_mode s) (ph s) (cwbuf s) (delayed s) (pend_writes s) v (outframes s) (cancelled s) (done_seen s) (ended s) (errored s) (ct_exited s) (cycle_pops s) (cycle_flushed s) (iter_heap s) (iter_dirty s) (retired s) (wlog s) (cycle_err s) (out_pending s) (matrix s) (final_done s) (released s) (last_lazy s).
+Definition cs_outframes (s : cst) v : cst := mkC (bars s) (heap s) (hsync s) (hlen s) (hdirty s) (iterating s) (popped s) (fifo s) (queue s) (pop_prio s) (id_count s) (pop_mode s) (auto_mode s) (ph s) (cwbuf s) (delayed s) (pend_writes s) (pend_fix s) v (cancelled s) (done_seen s) (ended s) (errored s) (ct_exited s) (cycle_pops s) (cycle_flushed s) (iter_heap s) (iter_dirty s) (retired s) (wlog s) (cycle_err s) (out_pending s) (matrix s) (final_done s) (released s) (last_lazy s).
+Definition cs_cancelled (s : cst) v : cst := mkC (bars s) (heap s) (hsync s) (hlen s) (hdirty s) (iterating s) (popped s) (fifo s) (queue s) (pop_prio s) (id_count s) (pop_mode s) (auto_mode s) (ph s) (cwbuf s) (delayed s) (pend_writes s) (pend_fix s) (outframes s) v (done_seen s) (ended s) (errored s) (ct_exited s) (cycle_pops s) (cycle_flushed s) (iter_heap s) (iter_dirty s) (retired s) (wlog s) (cycle_err s) (out_pending s) (matrix s) (final_done s) (released s) (last_lazy s).
+Definition cs_done_seen (s : cst) v : cst := mkC (bars s) (heap s) (hsync s) (hlen s) (hdirty s) (iterating s) (popped s) (fifo s) (queue s) (pop_prio s) (id_count s) (pop_mode s) (auto_mode s) (ph s) (cwbuf s) (delayed s) (pend_writes s) (pend_fix s) (outframes s) (cancelled s) v (ended s) (errored s) (ct_exited s) (cycle_pops s) (cycle_flushed s) (iter_heap s) (iter_dirty s) (retired s) (wlog s) (cycle_err s) (out_pending s) (matrix s) (final_done s) (released s) (last_lazy s).
+Definition cs_ended (s : cst) v : cst := mkC (bars s) (heap s) (hsync s) (hlen s) (hdirty s) (iterating s) (popped s) (fifo s) (queue s) (pop_prio s) (id_count s) (pop_mode s) (auto_mode s) (ph s) (cwbuf s) (delayed s) (pend_writes s) (pend_fix s) (outframes s) (cancelled s) (done_seen s) v (errored s) (ct_exited s) (cycle_pops s) (cycle_flushed s) (iter_heap s) (iter_dirty s) (retired s) (wlog s) (cycle_err s) (out_pending s) (matrix s) (final_done s) (released s) (last_lazy s).
+Definition cs_errored (s : cst) v : cst := mkC (bars s) (heap s) (hsync s) (hlen s) (hdirty s) (iterating s) (popped s) (fifo s) (queue s) (pop_prio s) (id_count s) (pop_mode s) (auto_mode s) (ph s) (cwbuf s) (delayed s) (pend_writes s) (pend_fix s) (outframes s) (cancelled s) (done_seen s) (ended s) v (ct_exited s) (cycle_pops s) (cycle_flushed s) (iter_heap s) (iter_dirty s) (retired s) (wlog s) (cycle_err s) (out_pending s) (matrix s) (final_done s) (released s) (last_lazy s).
+Definition cs_ct_exited (s : cst) v : cst := mkC (bars s) (heap s) (hsync s) (hlen s) (hdirty s) (iterating s) (popped s) (fifo s) (queue s) (pop_prio s) (id_count s) (pop_mode s) (auto_mode s) (ph s) (cwbuf s) (delayed s) (pend_writes s) (pend_fix s) (outframes s) (cancelled s) (done_seen s) (ended s) (errored s) v (cycle_pops s) (cycle_flushed s) (iter_heap s) (iter_dirty s) (retired s) (wlog s) (cycle_err s) (out_pending s) (matrix s) (final_done s) (released s) (last_lazy s).
+Definition cs_cycle_pops (s : cst) v : cst := mkC (bars s) (heap s) (hsync s) (hlen s) (hdirty s) (iterating s) (popped s) (fifo s) (queue s) (pop_prio s) (id_count s) (pop_mode s) (auto_mode s) (ph s) (cwbuf s) (delayed s) (pend_writes s) (pend_fix s) (outframes s) (cancelled s) (done_seen s) (ended s) (errored s) (ct_exited s) v (cycle_flushed s) (iter_heap s) (iter_dirty s) (retired s) (wlog s) (cycle_err s) (out_pending s) (matrix s) (final_done s) (released s) (last_lazy s).
+Definition cs_cycle_flushed (s : cst) v : cst := mkC (bars s) (heap s) (hsync s) (hlen s) (hdirty s) (iterating s) (popped s) (fifo s) (queue s) (pop_prio s) (id_count s) (pop_mode s) (auto_mode s) (ph s) (cwbuf s) (delayed s) (pend_writes s) (pend_fix s) (outframes s) (cancelled s) (done_seen s) (ended s) (errored s) (ct_exited s) (cycle_pops s) v (iter_heap s) (iter_dirty s) (retired s) (wlog s) (cycle_err s) (out_pending s) (matrix s) (final_done s) (released s) (last_lazy s).
+Definition cs_iter_heap (s : cst) v : cst := mkC (bars s) (heap s) (hsync s) (hlen s) (hdirty s) (iterating s) (popped s) (fifo s) (queue s) (pop_prio s) (id_count s) (pop_mode s) (auto_mode s) (ph s) (cwbuf s) (delayed s) (pend_writes s) (pend_fix s) (outframes s) (cancelled s) (done_seen s) (ended s) (errored s) (ct_exited s) (cycle_pops s) (cycle_flushed s) v (iter_dirty s) (retired s) (wlog s) (cycle_err s) (out_pending s) (matrix s) (final_done s) (released s) (last_lazy s).
+Definition cs_iter_dirty (s : cst) v : cst := mkC (bars s) (heap s) (hsync s) (hlen s) (hdirty s) (iterating s) (popped s) (fifo s) (queue s) (pop_prio s) (id_count s) (pop_mode s) (auto_mode s) (ph s) (cwbuf s) (delayed s) (pend_writes s) (pend_fix s) (outframes s) (cancelled s) (done_seen s) (ended s) (errored s) (ct_exited s) (cycle_pops s) (cycle_flushed s) (iter_heap s) v (retired s) (wlog s) (cycle_err s) (out_pending s) (matrix s) (final_done s) (released s) (last_lazy s).
+Definition cs_retired (s : cst) v : cst := mkC (bars s) (heap s) (hsync s) (hlen s) (hdirty s) (iterating s) (popped s) (fifo s) (queue s) (pop_prio s) (id_count s) (pop_mode s) (auto_mode s) (ph s) (cwbuf s) (delayed s) (pend_writes s) (pend_fix s) (outframes s) (cancelled s) (done_seen s) (ended s) (errored s) (ct_exited s) (cycle_pops s) (cycle_flushed s) (iter_heap s) (iter_dirty s) v (wlog s) (cycle_err s) (out_pending s) (matrix s) (final_done s) (released s) (last_lazy s).
+Definition cs_wlog (s : cst) v : cst := mkC (bars s) (heap s) (hsync s) (hlen s) (hdirty s) (iterating s) (popped s) (fifo s) (queue s) (pop_prio s) (id_count s) (pop_mode s) (auto_mode s) (ph s) (cwbuf s) (delayed s) (pend_writes s) (pend_fix s) (outframes s) (cancelled s) (done_seen s) (ended s) (errored s) (ct_exited s) (cycle_pops s) (cycle_flushed s) (iter_heap s) (iter_dirty s) (retired s) v (cycle_err s) (out_pending s) (matrix s) (final_done s) (released s) (last_lazy s).
+Definition cs_cycle_err (s : cst) v : cst := mkC (bars s) (heap s) (hsync s) (hlen s) (hdirty s) (iterating s) (popped s) (fifo s) (queue s) (pop_prio s) (id_count s) (pop_mode s) (auto_mode s) (ph s) (cwbuf s) (delayed s) (pend_writes s) (pend_fix s) (outframes s) (cancelled s) (done_seen s) (ended s) (errored s) (ct_exited s) (cycle_pops s) (cycle_flushed s) (iter_heap s) (iter_dirty s) (retired s) (wlog s) v (out_pending s) (matrix s) (final_done s) (released s) (last_lazy s).
+Definition cs_out_pending (s : cst) v : cst := mkC (bars s) (heap s) (hsync s) (hlen s) (hdirty s) (iterating s) (popped s) (fifo s) (queue s) (pop_prio s) (id_count s) (pop_mode s) (auto_mode s) (ph s) (cwbuf s) (delayed s) (pend_writes s) (pend_fix s) (outframes s) (cancelled s) (done_seen s) (ended s) (errored s) (ct_exited s) (cycle_pops s) (cycle_flushed s) (iter_heap s) (iter_dirty s) (retired s) (wlog s) (cycle_err s) v (matrix s) (final_done s) (released s) (last_lazy s).
+Definition cs_matrix (s : cst) v : cst := mkC (bars s) (heap s) (hsync s) (hlen s) (hdirty s) (iterating s) (popped s) (fifo s) (queue s) (pop_prio s) (id_count s) (pop_mode s) (auto_mode s) (ph s) (cwbuf s) (delayed s) (pend_writes s) (pend_fix s) (outframes s) (cancelled s) (done_seen s) (ended s) (errored s) (ct_exited s) (cycle_pops s) (cycle_flushed s) (iter_heap s) (iter_dirty s) (retired s) (wlog s) (cycle_err s) (out_pending s) v (final_done s) (released s) (last_lazy s).
+Definition cs_final_done (s : cst) v : cst := mkC (bars s) (heap s) (hsync s) (hlen s) (hdirty s) (iterating s) (popped s) (fifo s) (queue s) (pop_prio s) (id_count s) (pop_mode s) (auto_mode s) (ph s) (cwbuf s) (delayed s) (pend_writes s) (pend_fix s) (outframes s) (cancelled s) (done_seen s) (ended s) (errored s) (ct_exited s) (cycle_pops s) (cycle_flushed s) (iter_heap s) (iter_dirty s) (retired s) (wlog s) (cycle_err s) (out_pending s) (matrix s) v (released s) (last_lazy s).
+Definition cs_released (s : cst) v : cst := mkC (bars s) (heap s) (hsync s) (hlen s) (hdirty s) (iterating s) (popped s) (fifo s) (queue s) (pop_prio s) (id_count s) (pop_mode s) (auto_mode s) (ph s) (cwbuf s) (delayed s) (pend_writes s) (pend_fix s) (outframes s) (cancelled s) (done_seen s) (ended s) (errored s) (ct_exited s) (cycle_pops s) (cycle_flushed s) (iter_heap s) (iter_dirty s) (retired s) (wlog s) (cycle_err s) (out_pending s) (matrix s) (final_done s) v (last_lazy s).
+Definition cs_last_lazy (s : cst) v : cst := mkC (bars s) (heap s) (hsync s) (hlen s) (hdirty s) (iterating s) (popped s) (fifo s) (queue s) (pop_prio s) (id_count s) (pop_mode s) (auto_mode s) (ph s) (cwbuf s) (delayed s) (pend_writes s) (pend_fix s) (outframes s) (cancelled s) (done_seen s) (ended s) (errored s) (ct_exited s) (cycle_pops s) (cycle_flushed s) (iter_heap s) (iter_dirty s) (retired s) (wlog s) (cycle_err s) (out_pending s) (matrix s) (final_done s) (released s) v.
 
 Definition init_cst (popm autom delay : bool) : cst :=
   mkC [] [] false 0 false false [] [] [] (-2147483648) 0 popm autom Idle [] delay [] [] [] false false false false false
-      [] [] [] false [] [] false false [] false [].
+      [] [] [] false [] [] false false [] false [] None.
 
 Definition upd_bar (s : cst) (b : Z) (r : brec) : cst := cs_bars s (update b r (bars s)).
 
@@ -471,7 +473,7 @@ Definition step (s : cst) (e : ev) : option cst :=
       if negb (ended s) && negb (iterating s) && (hl =? Z.of_nat (length (heap s))) && Bool.eqb cs (hsync s) && (cl =? hlen s)
          && negb (memZ b (heap s)) then
         match fifo_pop s (is_push b sy) with
-        | Some s1 => Some (cs_hsync (cs_heap s1 (b :: heap s)) (hsync s || sy))
+        | Some s1 => Some (cs_last_lazy (cs_hsync (cs_heap s1 (b :: heap s)) (hsync s || sy)) None)
         | None => None
         end
       else None
@@ -491,7 +493,7 @@ Definition step (s : cst) (e : ev) : option cst :=
           | Some s1 =>
               let s2 := cs_iter_dirty (cs_iter_heap (cs_cycle_flushed (cs_cycle_pops (cs_popped s1 []) []) []) (heap s)) (hdirty s) in
               (* an empty heap: the ordered iteration is over at once *)
-              Some (cs_iterating s2 (negb (nil_b (heap s))))
+              Some (cs_last_lazy (cs_iterating s2 (negb (nil_b (heap s)))) None)
           | None => None
           end
         else fifo_pop s (is_q 2)       (* traverseBars of an early refresh *)
@@ -506,7 +508,13 @@ Definition step (s : cst) (e : ev) : option cst :=
             if idx <? 0 then (if memZ b (heap s) then None else Some s2) else
             if negb (memZ b (heap s) || (idx =? 0)) then None else
             match lookup b (bars s2) with
-            | Some r => Some (cs_hdirty (upd_bar s2 b (set_prio r p)) (hdirty s2 || lazy))
+            | Some r =>
+                (* lazy: the order may be broken.  immediate: heap.Fix(index of b) re-establishes the order around b only — which is
+                   the whole order exactly when b's own lazy change, made on an ordered heap, is the only thing that happened since
+                   (PQueueProofs.lazy_then_immediate_restores_order) *)
+                let s3 := upd_bar s2 b (set_prio r p) in
+                if lazy then Some (cs_last_lazy (cs_hdirty s3 true) (if hdirty s2 then None else Some b))
+                else Some (cs_last_lazy (cs_hdirty s3 (hdirty s2 && negb (eqo (last_lazy s2) (Some b)))) None)
             | None => None
             end
           else None
